@@ -33,6 +33,10 @@ class SymDomainError(ArithmeticError):
     """An operation left the domain the R-mode encoding can represent (e.g. negative base of a rational power)."""
 
 
+class _FrontierReached(BaseException):
+    pass
+
+
 class UnwindingError(Exception):
     """A loop/decision bound was reached with the path still feasible (never silently truncated)."""
 
@@ -85,12 +89,29 @@ class Explorer(object):
         self.n_unknown = 0
         self._fresh = itertools.count()
         self.truncated = False
+        self._frontier_depth = None
 
     # ------------------------------------------------------------------ running
-    def paths(self, fn):
-        """Generate every feasible path of ``fn(self)`` (depth first)."""
+    def frontier(self, fn, depth):
+        """Explore only the first ``depth`` decisions.
+
+        Yields ``('path', Path)`` for runs that complete with fewer decisions and ``('prefix', [(kind, choice), ...])``
+        for every feasible node at that depth; each prefix is then explored by ``paths(fn, start=prefix)`` (possibly
+        in another process), so that one harness instance is split over several workers without losing a path.
+        """
+        self._frontier_depth = depth
+        try:
+            for item in self.paths(fn, _frontier=True):
+                yield item
+        finally:
+            self._frontier_depth = None
+
+    def paths(self, fn, start=None, _frontier=False):
+        """Generate every feasible path of ``fn(self)`` (depth first), optionally below a fixed decision prefix."""
         global _CUR
-        prefix = []
+        prefix = [Dec(k, c, [], site='fixed') for (k, c) in (start or [])]
+        if not _frontier:
+            self._frontier_depth = None
         while True:
             if self.n_paths >= self.max_paths:
                 self.truncated = True
@@ -104,11 +125,15 @@ class Explorer(object):
             prev = _CUR
             _CUR = self
             aborted = False
+            frontier_hit = False
             try:
                 try:
                     self._path.result = fn(self)
                 except PathAbort:
                     aborted = True
+                except _FrontierReached:
+                    aborted = True
+                    frontier_hit = True
                 except UnwindingError:
                     raise
                 except Exception as exc:  # noqa -- the exception is the outcome of this path
@@ -116,9 +141,11 @@ class Explorer(object):
             finally:
                 _CUR = prev
             self._path.decisions = [d.choice for d in self._trace]
-            if not aborted:
+            if frontier_hit:
+                yield ('prefix', [(d.kind, d.choice) for d in self._trace])
+            elif not aborted:
                 self.n_paths += 1
-                yield self._path
+                yield ('path', self._path) if _frontier else self._path
             # backtrack
             trace = self._trace
             while trace and not trace[-1].alts:
@@ -195,6 +222,8 @@ class Explorer(object):
         if z3.is_false(s):
             return False
         depth = len(self._trace)
+        if self._frontier_depth is not None and depth >= self._frontier_depth:
+            raise _FrontierReached()
         if depth >= self.max_decisions:
             raise UnwindingError("decision bound %d reached" % self.max_decisions)
         if depth < len(self._prefix):
@@ -227,6 +256,8 @@ class Explorer(object):
         if z3.is_int_value(s):
             return s.as_long()
         depth = len(self._trace)
+        if self._frontier_depth is not None and depth >= self._frontier_depth:
+            raise _FrontierReached()
         if depth >= self.max_decisions:
             raise UnwindingError("decision bound %d reached" % self.max_decisions)
         if depth < len(self._prefix):
@@ -264,6 +295,8 @@ class Explorer(object):
     def choose(self, n, label=None):
         """Non-deterministic concrete choice among ``range(n)`` made by the explorer (no solver involved)."""
         depth = len(self._trace)
+        if self._frontier_depth is not None and depth >= self._frontier_depth:
+            raise _FrontierReached()
         if depth < len(self._prefix):
             d = self._prefix[depth]
             assert d.kind == 'choose', "non-deterministic replay (choose expected)"
